@@ -10,6 +10,8 @@ GRIDS = {
     "G3": dict(freq=[0.1, 0.2, 0.35], dir=[0.0, 180.0]),
     # uniform frequency spacing (df-weighting immaterial), 4 directions offset
     "U4": dict(freq=[0.1, 0.2, 0.3, 0.4], dir=[20.0, 110.0, 200.0, 290.0]),
+    # uniformly spaced SECTOR stored across the 0/360 seam (not a full circle)
+    "PS": dict(freq=[0.1, 0.2, 0.4], dir=[300.0, 330.0, 0.0, 30.0]),
     # single frequency / single direction / two bins
     "F1": dict(freq=[0.2], dir=[0.0, 120.0, 240.0]),
     "D1": dict(freq=[0.08, 0.16, 0.4], dir=[45.0]),
